@@ -117,7 +117,20 @@ def coq_build(targets=None, jobs=8):
                 return False, out
         cmd = ["make", "-j%d" % jobs, "-k"] + (targets or [])
         rc, out, _ = run(cmd, cwd=COQ, timeout=1800)
-        return rc == 0, out
+        ok = rc == 0
+        # extracted driver: rebuild when the model is newer
+        drv = os.path.join(VERIF, "driver", "simdriver")
+        srcs = [os.path.join(COQ, "Model", f) for f in ("Sim.vo", "Types.vo")] + \
+               [os.path.join(VERIF, "driver", f) for f in ("main.ml", "Extract.v")]
+        newest = max((os.path.getmtime(f) for f in srcs if os.path.exists(f)), default=0)
+        if (not os.path.exists(drv)) or os.path.getmtime(drv) < newest:
+            d = os.path.join(VERIF, "driver")
+            rc1, o1, _ = run(["coqc", "-Q", COQ, "PV", "Extract.v"], cwd=d)
+            rc2, o2, _ = run(["ocamlfind", "ocamlopt", "-O3", "-package", "zarith", "-linkpkg", "-w", "-a",
+                              "sim.mli", "sim.ml", "main.ml", "-o", "simdriver"], cwd=d)
+            out += o1 + o2
+            ok = ok and rc1 == 0 and rc2 == 0
+        return ok, out
 
 
 def coqc_file(path, cwd=COQ, timeout=COQC_TIMEOUT, extra=()):
